@@ -45,7 +45,7 @@ fn main() {
 fn parent(args: &Args) {
     let t0 = Instant::now();
     let mut out = Out::new();
-    let shards = args.get_u64("shards", args.tier.pick(2048, 30720));
+    let shards = args.get_u64("shards", args.tier.pick(2048, 24576));
     let hist = args.get_u64("hist", 50);
     let ends = run::run_children(args, &ChildSpec::new("hist", shards).arg("hist", hist).timeout(900), &mut out);
     run::classify_ends(&ends, &mut out, true);
@@ -94,9 +94,11 @@ fn parent(args: &Args) {
                 "a span is never entered twice on one thread (duplicate entries are excluded by C06's property text)".into(),
                 "close notifications are judged for WHO receives them and exactly-once at the end of the history; WHEN a span closes is C05's".into(),
                 "whether a span handle is enabled is taken from the returned handle (interest summaries are C08's); who receives it is judged".into(),
-                "F3 signature as implemented: layer i misses exactly the first emission that reaches the collector on that thread after a dispatcher interaction in which one of i's filters answered reject and which ended before on_event/on_new_span (enabled!/log_enabled! probe, or an event a global layer's event_enabled vetoed) while every global filter accepted in `enabled`; that emission ran no `enabled` pass (cached interest always); span enter/exit/record/drop operations in between do not count as emissions. Everything else is a VIOLATION".into(),
+                "F3 signature as implemented (observed at the API boundary through transparent recording wrappers around every per-layer filter and global filter): layer i misses exactly the first emission that reaches the collector on that thread after a dispatcher interaction in which one of i's filters answered reject and which ended before on_event/on_new_span (enabled!/log_enabled! probe, or an event a global layer's event_enabled vetoed) while no global filter answered reject in that pass; the missed emission ran no `enabled` pass (cached interest always); span enter/exit/record/drop operations and emissions that never reach the collector in between are not emissions in this sense. A span created in that state is stored as rejected by those filters, so its later enter/exit/record/close and its place in lookups are missed too (model follows the observation); if no recording layer sits under the filter the same is counted from the filter's own later answers".into(),
+                "F3b (listed separately in known_findings.json): the same, but the reject stems from an EARLIER interaction and survived only because the filter is nested inside another Filtered whose reject cut every enabled pass since short and skipped its did_enable; any other surviving effect is a VIOLATION".into(),
+                "emissions dropped before dispatch because their level is above LevelFilter::current() although a layer must receive them are reported under the ids of the repaired defects F24 (and_then tree, no None layer) / F26 (a None layer in a live stack); both are unlisted, so a recurrence is a VIOLATION".into(),
             ],
-            min_evals: args.tier.pick(1_500_000, 25_000_000),
+            min_evals: args.tier.pick(1_500_000, 20_000_000),
             min_distinct: args.tier.pick(60_000, 300_000),
             exhaustive: false,
             extra,
